@@ -515,6 +515,41 @@ func runC12(c *an.Ctx, p *an.Prog, thorough bool) {
 				})
 			}
 		}
+		if modes[`""`] == "" {
+			// no assignment for the empty mode: the field of the freshly allocated store keeps its zero value, nil
+			du := ""
+			an.EnumPaths(ns, nil, nil, func(s *an.PathState) {
+				if du == "" {
+					du = s.T(ns.Params[1]).K
+				}
+				isEmpty := false
+				for _, a := range s.Atoms {
+					if a.Op == "==" && a.B != nil && a.A.K == du && a.B.IsConst(`""`) {
+						isEmpty = true
+					}
+				}
+				if !isEmpty {
+					return
+				}
+				wrote, fresh := false, false
+				for _, e := range s.Events {
+					if e.Kind == "store" && e.Args[0].Op == "fieldaddr" {
+						if e.Args[0].Aux == "upgradeChan" {
+							wrote = true
+						}
+						if e.Args[0].Aux == "updateChan" && e.Args[0].Args[0].Op == "alloc" {
+							fresh = true
+						}
+					}
+				}
+				if !wrote && fresh && modes[`""`] == "" {
+					modes[`""`] = "nil"
+				}
+				if wrote {
+					modes[`""`] = "assigned on some path"
+				}
+			})
+		}
 		want := map[string]string{`""`: "nil", `"local"`: "updateChan", "<other>": "runRemoteUpgrader(doUpgrades)"}
 		for k, w := range want {
 			if modes[k] != w {
